@@ -41,6 +41,64 @@ def _to_ast(v):
     return ast.Constant(value=v)
 
 
+class CompTable:
+    """`T = {k: f(k) for k in range(lo, hi)}` / `[f(k) for k in range(lo, hi)]`: a table computed once at import; `T[c]` is `f(c)`"""
+
+    def __init__(self, var, lo, hi, expr, is_list):
+        self.var, self.lo, self.hi, self.expr, self.is_list = var, lo, hi, expr, is_list
+
+    def lookup(self, c):
+        if self.is_list:
+            if c < 0:
+                c += self.hi - self.lo
+            if not 0 <= c < self.hi - self.lo:
+                return None
+            c += self.lo
+        elif not self.lo <= c < self.hi:
+            return None
+
+        class _S(ast.NodeTransformer):
+            def visit_Name(s, n):
+                return ast.Constant(value=c) if n.id == self.var else n
+
+        return _S().visit(copy.deepcopy(self.expr))
+
+
+def _comp_table(e, known, funcs):
+    """a comprehension over range(<consts>) whose element only mentions the loop variable, constants and module-level functions"""
+    if isinstance(e, ast.Call) and isinstance(e.func, ast.Name) and e.func.id in ("tuple", "list") and len(e.args) == 1 and not e.keywords \
+            and isinstance(e.args[0], (ast.GeneratorExp, ast.ListComp)):
+        e = e.args[0]
+    if not isinstance(e, (ast.DictComp, ast.ListComp, ast.GeneratorExp)) or len(e.generators) != 1:
+        return None
+    g = e.generators[0]
+    if g.ifs or g.is_async or not isinstance(g.target, ast.Name):
+        return None
+    it = g.iter
+    if not (isinstance(it, ast.Call) and isinstance(it.func, ast.Name) and it.func.id == "range" and 1 <= len(it.args) <= 2 and not it.keywords):
+        return None
+    try:
+        bounds = [_literal(a, known) for a in it.args]
+    except ValueError:
+        return None
+    if not all(isinstance(b, int) for b in bounds):
+        return None
+    lo, hi = (0, bounds[0]) if len(bounds) == 1 else bounds
+    var = g.target.id
+    if isinstance(e, ast.DictComp):
+        if not (isinstance(e.key, ast.Name) and e.key.id == var):
+            return None
+        val = e.value
+    else:
+        val = e.elt
+    for n in ast.walk(val):
+        if isinstance(n, ast.Name) and n.id != var and n.id not in known and n.id not in funcs:
+            return None
+        if isinstance(n, (ast.Lambda, ast.NamedExpr, ast.Await, ast.Yield, ast.YieldFrom, ast.ListComp, ast.DictComp, ast.SetComp, ast.GeneratorExp)):
+            return None
+    return CompTable(var, lo, hi, val, not isinstance(e, ast.DictComp))
+
+
 def new_constants(tree, ref_names):
     """{name: python value} for module-level names, {(class, name): value} for class-level ones"""
     counts = {}
@@ -79,6 +137,7 @@ def new_constants(tree, ref_names):
             mutated.add(n.target.id)
     mod_consts, cls_consts = {}, {}
     known = {}
+    funcs = {st.name for st in tree.body if isinstance(st, ast.FunctionDef) and counts.get(st.name, 0) == 10}
     for _ in range(3):
         for st in tree.body:
             if isinstance(st, ast.Assign) and len(st.targets) == 1 and isinstance(st.targets[0], ast.Name):
@@ -88,6 +147,9 @@ def new_constants(tree, ref_names):
                 try:
                     v = _literal(st.value, known)
                 except ValueError:
+                    t = _comp_table(st.value, known, funcs) if nm not in ref_names else None
+                    if t is not None:
+                        mod_consts[nm] = t
                     continue
                 known[nm] = v
                 if nm not in ref_names:
@@ -133,7 +195,23 @@ class _Subst(ast.NodeTransformer):
 
     visit_AsyncFunctionDef = visit_FunctionDef
 
+    def visit_Subscript(self, n):
+        v = n.value
+        if isinstance(n.ctx, ast.Load) and isinstance(v, ast.Name) and isinstance(self.mc.get(v.id), CompTable) and not any(v.id in s for s in self.shadow):
+            try:
+                c = _literal(n.slice, {})
+            except ValueError:
+                c = None
+            if isinstance(c, int) and not isinstance(c, bool):
+                r = self.mc[v.id].lookup(c)
+                if r is not None:
+                    return ast.copy_location(r, n)
+        self.generic_visit(n)
+        return n
+
     def visit_Name(self, n):
+        if isinstance(n.ctx, ast.Load) and isinstance(self.mc.get(n.id), CompTable):
+            return n
         if isinstance(n.ctx, ast.Load) and n.id in self.mc and not any(n.id in s for s in self.shadow):
             return ast.copy_location(_to_ast(self.mc[n.id]), n)
         return n
